@@ -1241,15 +1241,21 @@ def c14_natural(job):
     bm = p.bm(ts_f[0], ts_f[-1], max_calls=8 * limit + 100)
     key = dict(label=c["label"], noise=c["noise"], dtype=c["dtype"], mode="natural")
     aborted = False
+    # dt, dt_min, rtol, atol are `Scalar`s: Python floats or 0-dim tensors.  Every other problem passes tensors (and
+    # checks afterwards that the caller's tensors still hold the values passed).
+    as_tensor = (sum(map(ord, pr["name"])) + seed) % 2 == 0
+    # (in the dtype of the problem, so that the time arithmetic of the loop stays in the dtype of ts)
+    sc = {k: (torch.tensor(pr[k], dtype=p.dtype) if as_tensor else pr[k]) for k in ("dt", "dt_min", "rtol", "atol")}
+    sc0 = {k: float(v) for k, v in sc.items()}
     with LoopRecorder(bm, max_trials=limit) as rec:
         try:
-            p.sdeint(ts_f, pr["dt"], bm, adaptive=True, dt_min=pr["dt_min"], rtol=pr["rtol"], atol=pr["atol"])
+            p.sdeint(ts_f, sc["dt"], bm, adaptive=True, dt_min=sc["dt_min"], rtol=sc["rtol"], atol=sc["atol"])
         except WatchdogExpired:
             aborted = True
         except Exception as e:  # noqa
             return dict(fails=[(dict(key, check="exception"), f"{pr['name']}: {type(e).__name__}: {e}", pr)], trace=None)
-    ra = analyse(rec.events, bm.log, ts_f, p.dtype, p.y0, pr["dt"], True, dt_min=pr["dt_min"], rtol=pr["rtol"],
-                 atol=pr["atol"], max_trials=limit, aborted=aborted, reexec=rec.inner_step)
+    ra = analyse(rec.events, bm.log, ts_f, p.dtype, p.y0, sc0["dt"], True, dt_min=sc0["dt_min"], rtol=sc0["rtol"],
+                 atol=sc0["atol"], max_trials=limit, aborted=aborted, reexec=rec.inner_step)
     tr = ra.trials
     stats = dict(trials=len(tr), accepted=sum(d["acc"] for d in tr), rejected=sum(not d["acc"] for d in tr),
                  forced_at_dt_min=sum(1 for d in tr if d["acc"] and not d["le1"]),
@@ -1259,7 +1265,15 @@ def c14_natural(job):
     ev, cut = cap_trace(ra.ev)
     stats["trace_cut"] = cut
     stats["terminated"] = not aborted
-    return dict(fails=[], trace=(ra.hdr, ev), drift=ra.drift, stats=stats, key=key, name=pr["name"],
+    stats["scalars_as_tensors"] = as_tensor
+    fails = []
+    if as_tensor:
+        changed = {k: float(sc[k]) for k in sc if float(sc[k]) != sc0[k]}
+        if changed:
+            fails.append((dict(key, check="argument_mutated"),
+                          f"{pr['name']}: the caller's tensor arguments were modified by sdeint: {changed} (passed "
+                          f"{ {k: pr[k] for k in changed} })", pr))
+    return dict(fails=fails, trace=(ra.hdr, ev), drift=ra.drift, stats=stats, key=key, name=pr["name"],
                 detail=ra.reexec_detail)
 
 
